@@ -26,6 +26,7 @@ structure Src where
   localRid : Nat
   addr     : Option Nat
   confed   : Bool
+  rrClient : Bool := false   -- PeerInfo.RouteReflectorClient (read by export filtering only)
 deriving Repr, DecidableEq, Inhabited
 
 structure Cand where
@@ -39,6 +40,12 @@ structure Cand where
   origin    : Option Nat
   med       : Option Nat
   ts        : Nat            -- Unix seconds (originInfo.timestamp)
+  -- fields below are never read by the best-path comparators (used by Model/World.lean)
+  pfx         : Nat := 0          -- destination (prefix index)
+  marker      : Nat := 0          -- identifies the announcement (a community 65534:marker)
+  originator  : Option Nat := none
+  clusterList : List Nat := []
+  comms       : List Nat := []    -- other communities
 deriving Repr, DecidableEq, Inhabited
 
 structure Opts where
